@@ -17,8 +17,10 @@ import (
 	"fmt"
 	"os"
 	"os/exec"
+	"path/filepath"
 	"runtime"
 	"runtime/debug"
+	"strings"
 	"sync"
 	"sync/atomic"
 	"time"
@@ -121,6 +123,8 @@ func runShard(self, in, out string, nprogs, timeoutMs, memMiB int) int {
 		cmd := exec.Command(self, "worker", "-in", in, "-out", out, "-skip", fmt.Sprint(skip),
 			"-timeout", fmt.Sprint(timeoutMs), "-mem", fmt.Sprint(memMiB))
 		cmd.Stderr = os.Stderr
+		raceLog := out + ".race"
+		cmd.Env = append(os.Environ(), "GORACE=halt_on_error=1 exitcode=66 log_path="+raceLog)
 		err := cmd.Run()
 		if err == nil {
 			return aborts
@@ -131,6 +135,28 @@ func runShard(self, in, out string, nprogs, timeoutMs, memMiB int) int {
 		}
 		if code == 2 {
 			fatal("worker reported a harness error (shard %s)", in)
+		}
+		if code == 66 {
+			// the race detector stopped the worker: no false positives, no confirmation run
+			done := lastDone(out, skip)
+			bad := done + 1
+			truncateAfterDone(out, done)
+			var pr program
+			progs := readPrograms(in)
+			if bad < len(progs) {
+				json.Unmarshal(progs[bad], &pr)
+			}
+			of, _ := os.OpenFile(out, os.O_CREATE|os.O_WRONLY|os.O_APPEND, 0o644)
+			rb, _ := json.Marshal(obj{"ev": "Reset", "prog": pr.ID, "fam": pr.Fam})
+			of.Write(rb)
+			rr, _ := json.Marshal(obj{"ev": "Race", "idx": bad, "sites": raceSites(raceLog)})
+			of.Write([]byte("\n"))
+			of.Write(rr)
+			fmt.Fprintf(of, "\n{\"ev\":\"Done\",\"idx\":%d}\n", bad)
+			of.Close()
+			aborts++
+			skip = bad + 1
+			continue
 		}
 		// find the last completed program
 		done := lastDone(out, skip)
@@ -174,6 +200,28 @@ func runShard(self, in, out string, nprogs, timeoutMs, memMiB int) int {
 		skip = bad + 1
 	}
 	return aborts
+}
+
+// raceSites extracts the library functions named in the race detector's report.
+func raceSites(prefix string) []string {
+	sites := []string{}
+	matches, _ := filepath.Glob(prefix + ".*")
+	seen := map[string]bool{}
+	for _, f := range matches {
+		b, _ := os.ReadFile(f)
+		for _, line := range strings.Split(string(b), "\n") {
+			line = strings.TrimSpace(line)
+			if i := strings.Index(line, "gregoryv/mq."); i >= 0 && !strings.HasPrefix(line, "/") {
+				s := strings.TrimSuffix(line[i+len("gregoryv/mq."):], "()")
+				if !seen[s] && len(sites) < 8 {
+					seen[s] = true
+					sites = append(sites, s)
+				}
+			}
+		}
+		os.Remove(f)
+	}
+	return sites
 }
 
 func completeLines(b []byte) []byte {
